@@ -72,6 +72,7 @@ type (
 		bindings []sxVal
 	}
 	sxFunc    struct{ fn *ssa.Function }
+	sxTuple   struct{ vals []sxVal } // results of an inlined multi-result call
 	sxUnknown struct {
 		why string
 		id  int
@@ -87,7 +88,9 @@ func (v sxConst) key() string {
 func (v sxParam) key() string     { return "param:" + v.p.Name() }
 func (v sxFreeVar) key() string   { return "freevar:" + v.v.Name() }
 func (v sxGlobal) key() string    { return "&" + short(v.g.Pkg.Pkg.Path()) + "." + v.g.Name() }
-func (v sxAlloc) key() string     { return "&local:" + v.a.Name() + "(" + v.a.Comment + ")" }
+func (v sxAlloc) key() string {
+	return "&local:" + v.a.Parent().Name() + "." + v.a.Name() + "(" + v.a.Comment + ")"
+}
 func (v sxFieldAddr) key() string { return "&(" + v.base.key() + ")." + v.name }
 func (v sxIndexAddr) key() string { return "&(" + v.base.key() + ")[" + v.idx.key() + "]" }
 func (v sxInit) key() string      { return "init(" + v.addr.key() + ")" }
@@ -95,6 +98,13 @@ func (v sxField) key() string     { return "(" + v.x.key() + ")." + v.name }
 func (v sxZero) key() string      { return "zero" }
 func (v sxCall) key() string      { return fmt.Sprintf("call:%s#%d", v.rec.id, v.idx) }
 func (v sxFunc) key() string      { return "func:" + FnName(v.fn) }
+func (v sxTuple) key() string {
+	parts := make([]string, len(v.vals))
+	for i, a := range v.vals {
+		parts[i] = a.key()
+	}
+	return "tuple(" + strings.Join(parts, ",") + ")"
+}
 func (v sxUnknown) key() string   { return fmt.Sprintf("unknown%d:%s", v.id, v.why) }
 func (v sxStruct) key() string {
 	var ks []int
@@ -312,20 +322,53 @@ func (s *sxState) unknown(why string) sxVal {
 
 // sxResult is the outcome of enumerating fn.
 type sxResult struct {
-	Paths    []*sxPath
-	Err      string // non-empty: enumeration gave up (caller reports Undecided)
-	Pruned   int
+	Paths  []*sxPath
+	Err    string // non-empty: enumeration gave up (caller reports Undecided)
+	Pruned int
 }
 
-var sxCache = map[*ssa.Function]*sxResult{}
+type sxCacheKey struct {
+	fn  *ssa.Function
+	tag string
+}
 
-// sxPaths enumerates the feasible paths of fn (memoised per function).
-func sxPaths(fn *ssa.Function) *sxResult {
-	if r, ok := sxCache[fn]; ok {
+var sxCache = map[sxCacheKey]*sxResult{}
+
+// sxFrame is one activation on the inline stack.
+type sxFrame struct {
+	fn     *ssa.Function
+	parent *sxFrame
+	depth  int
+}
+
+func (f *sxFrame) active(fn *ssa.Function) bool {
+	for x := f; x != nil; x = x.parent {
+		if x.fn == fn {
+			return true
+		}
+	}
+	return false
+}
+
+const (
+	sxInlineDepth  = 3
+	sxInlineBlocks = 60
+)
+
+// sxPaths enumerates the feasible paths of fn without inlining any callee.
+func sxPaths(fn *ssa.Function) *sxResult { return sxPathsInline(fn, "", nil) }
+
+// sxPathsInline enumerates the feasible paths of fn; static in-module callees
+// with a body for which inline(callee) holds are executed in place (depth ≤ 3,
+// no recursion), so that extracting a helper does not change what a rule
+// sees.  tag names the inlining policy (cache key).
+func sxPathsInline(fn *ssa.Function, tag string, inline func(*ssa.Function) bool) *sxResult {
+	ck := sxCacheKey{fn, tag}
+	if r, ok := sxCache[ck]; ok {
 		return r
 	}
 	res := &sxResult{}
-	sxCache[fn] = res
+	sxCache[ck] = res
 	if len(fn.Blocks) == 0 {
 		res.Err = "function has no body"
 		return res
@@ -333,16 +376,20 @@ func sxPaths(fn *ssa.Function) *sxResult {
 	n := 0
 	st := &sxState{fn: fn, regs: map[ssa.Value]sxVal{}, mem: map[string]sxVal{}, factIdx: map[string]bool{},
 		visits: map[*ssa.BasicBlock]int{}, nUnk: &n, nCall: map[ssa.Instruction]int{}}
-	var run func(s *sxState, b, pred *ssa.BasicBlock)
-	run = func(s *sxState, b, pred *ssa.BasicBlock) {
+	type cont func(s *sxState, ret *ssa.Return, results []sxVal)
+	var runBlock func(s *sxState, fr *sxFrame, b, pred *ssa.BasicBlock, k cont)
+	var runInstrs func(s *sxState, fr *sxFrame, b *ssa.BasicBlock, from int, k cont)
+	runBlock = func(s *sxState, fr *sxFrame, b, pred *ssa.BasicBlock, k cont) {
 		if res.Err != "" {
 			return
 		}
 		if s.visits[b] >= sxMaxVisits {
-			return // loop bound: each block at most twice per path
+			return // loop bound: each block at most twice per activation
 		}
 		s.visits[b]++
-		s.blocks = append(s.blocks, b)
+		if fr.parent == nil {
+			s.blocks = append(s.blocks, b)
+		}
 		// phis are evaluated simultaneously on block entry
 		phiVals := map[*ssa.Phi]sxVal{}
 		for _, in := range b.Instrs {
@@ -362,11 +409,15 @@ func sxPaths(fn *ssa.Function) *sxResult {
 		for phi, v := range phiVals {
 			s.regs[phi] = v
 		}
-		for _, in := range b.Instrs {
+		runInstrs(s, fr, b, 0, k)
+	}
+	runInstrs = func(s *sxState, fr *sxFrame, b *ssa.BasicBlock, from int, k cont) {
+		for idx := from; idx < len(b.Instrs); idx++ {
+			in := b.Instrs[idx]
 			switch t := in.(type) {
 			case *ssa.Phi, *ssa.DebugRef, *ssa.RunDefers:
 			case *ssa.Jump:
-				run(s, b.Succs[0], b)
+				runBlock(s, fr, b.Succs[0], b, k)
 				return
 			case *ssa.If:
 				cond := s.eval(t.Cond)
@@ -378,7 +429,7 @@ func sxPaths(fn *ssa.Function) *sxResult {
 							res.Pruned++
 							continue
 						}
-						run(s.clone(), b.Succs[i], b)
+						runBlock(s.clone(), fr, b.Succs[i], b, k)
 						continue
 					}
 					fv := truth != neg // value of the canonical (positive) condition
@@ -391,29 +442,64 @@ func sxPaths(fn *ssa.Function) *sxResult {
 						ns.factIdx[key] = fv
 						ns.facts = append(ns.facts, sxFact{Key: key, Val: fv, Cond: cond})
 					}
-					run(ns, b.Succs[i], b)
+					runBlock(ns, fr, b.Succs[i], b, k)
 				}
 				return
 			case *ssa.Return:
-				p := &sxPath{Fn: fn, Blocks: s.blocks, Calls: s.calls, Facts: s.facts, Updates: s.updates, Mem: s.mem, RetInstr: t}
-				p.Ret = make([]sxVal, len(t.Results))
+				results := make([]sxVal, len(t.Results))
 				for i, r := range t.Results {
-					p.Ret[i] = s.eval(r)
+					results[i] = s.eval(r)
 				}
-				res.Paths = append(res.Paths, p)
-				if len(res.Paths) > sxMaxPaths {
-					res.Err = fmt.Sprintf("more than %d paths", sxMaxPaths)
-				}
+				k(s, t, results)
 				return
 			case *ssa.Panic:
 				res.Paths = append(res.Paths, &sxPath{Fn: fn, Blocks: s.blocks, Calls: s.calls, Facts: s.facts, Updates: s.updates, Mem: s.mem})
 				return
+			case *ssa.Call:
+				g := StaticCallee(t)
+				if inline != nil && g != nil {
+					if inModule(g) && len(g.Blocks) > 0 && len(g.Blocks) <= sxInlineBlocks && len(g.FreeVars) == 0 &&
+						fr.depth < sxInlineDepth && !fr.active(g) && inline(g) {
+						args := make([]sxVal, len(t.Call.Args))
+						for i, a := range t.Call.Args {
+							args[i] = s.eval(a)
+						}
+						for i, p := range g.Params {
+							s.regs[p] = args[i]
+						}
+						for _, gb := range g.Blocks {
+							delete(s.visits, gb)
+						}
+						nf := &sxFrame{fn: g, parent: fr, depth: fr.depth + 1}
+						call, blk, next := t, b, idx+1
+						runBlock(s, nf, g.Blocks[0], nil, func(s2 *sxState, _ *ssa.Return, results []sxVal) {
+							switch len(results) {
+							case 0:
+								s2.regs[call] = sxZero{}
+							case 1:
+								s2.regs[call] = results[0]
+							default:
+								s2.regs[call] = sxTuple{results}
+							}
+							runInstrs(s2, fr, blk, next, k)
+						})
+						return
+					}
+				}
+				s.exec(in)
 			default:
 				s.exec(in)
 			}
 		}
 	}
-	run(st, fn.Blocks[0], nil)
+	root := &sxFrame{fn: fn}
+	runBlock(st, root, fn.Blocks[0], nil, func(s *sxState, ret *ssa.Return, results []sxVal) {
+		p := &sxPath{Fn: fn, Blocks: s.blocks, Calls: s.calls, Facts: s.facts, Updates: s.updates, Mem: s.mem, RetInstr: ret, Ret: results}
+		res.Paths = append(res.Paths, p)
+		if len(res.Paths) > sxMaxPaths {
+			res.Err = fmt.Sprintf("more than %d paths", sxMaxPaths)
+		}
+	})
 	return res
 }
 
@@ -444,6 +530,9 @@ func sxCondKey(c sxVal) (key string, neg bool, isConst bool, cval bool) {
 				if sxSame(a, b) {
 					return "", false, true, !neg
 				}
+				if (sxSame(a, sxNil) && sxKnownNonNil(b)) || (sxSame(b, sxNil) && sxKnownNonNil(a)) {
+					return "", false, true, neg
+				}
 				return sxEqKey(a, b), neg, false, false
 			}
 		}
@@ -451,11 +540,32 @@ func sxCondKey(c sxVal) (key string, neg bool, isConst bool, cval bool) {
 	}
 }
 
+// sxKnownNonNil: terms that cannot be nil (fresh errors, sentinel errors,
+// addresses of variables, function values, freshly made maps/slices).
+func sxKnownNonNil(v sxVal) bool {
+	switch u := v.(type) {
+	case sxCall:
+		return u.idx == 0 && (u.rec.Name == "fmt.Errorf" || u.rec.Name == "errors.New")
+	case sxInit:
+		if g, ok := u.addr.(sxGlobal); ok {
+			return isErrorType(g.g.Type().(*types.Pointer).Elem())
+		}
+	case sxAlloc, sxGlobal, sxFieldAddr, sxClosure, sxFunc:
+		return true
+	case sxOp:
+		return strings.HasPrefix(u.op, "make:")
+	}
+	return false
+}
+
 func (s *sxState) eval(v ssa.Value) sxVal {
 	switch u := v.(type) {
 	case *ssa.Const:
 		return sxConst{u}
 	case *ssa.Parameter:
+		if r, ok := s.regs[v]; ok {
+			return r // bound to the argument of an inlined call
+		}
 		return sxParam{u}
 	case *ssa.FreeVar:
 		return sxFreeVar{u}
@@ -639,6 +749,8 @@ func (s *sxState) exec(in ssa.Instruction) {
 		t := s.eval(u.Tuple)
 		if c, ok := t.(sxCall); ok {
 			s.regs[u] = sxCall{c.rec, u.Index}
+		} else if tp, ok := t.(sxTuple); ok && u.Index < len(tp.vals) {
+			s.regs[u] = tp.vals[u.Index]
 		} else {
 			s.regs[u] = sxOp{fmt.Sprintf("extract#%d", u.Index), []sxVal{t}}
 		}
@@ -686,7 +798,7 @@ func (s *sxState) call(c ssa.CallInstruction, deferred bool) sxVal {
 		name = fmt.Sprintf("i%d.%d", in.Block().Index, instrIndex(in))
 	}
 	rec := &sxCallRec{Call: c, Name: CalleeName(c), Callee: StaticCallee(c), NFacts: len(s.facts), Deferred: deferred,
-		id: fmt.Sprintf("%s@%s#%d", name, s.fn.Name(), s.nCall[in])}
+		id: fmt.Sprintf("%s@%s#%d", name, in.Parent().Name(), s.nCall[in])}
 	if cc.IsInvoke() {
 		rec.Recv = s.eval(cc.Value)
 	} else if rec.Callee == nil {
@@ -802,6 +914,10 @@ func sxWalk(v sxVal, f func(sxVal) bool) {
 			}
 		case sxClosure:
 			for _, x := range u.bindings {
+				rec(x, depth+1)
+			}
+		case sxTuple:
+			for _, x := range u.vals {
 				rec(x, depth+1)
 			}
 		}
